@@ -194,11 +194,48 @@ func init() {
 		x.Assert("history:cli-max-size-literals", len(cli) > 0 && len(bad) == 0,
 			"expected every history.NewSearchHistory(path, <int literal>) call in internal/cli to pass an integer literal (found %d literal calls, non-literal in %v)", len(cli), bad)
 
-		if newDefault == "" {
+		// ---- the views: `if limit <= 0 { limit = N }` in GetRecentQueries and GetTopQueries, the same N (a value, not a shape:
+		// the property does not say how many rows "the default" is)
+		viewDefault := ""
+		viewOK := true
+		for _, fn := range []string{"GetRecentQueries", "GetTopQueries"} {
+			vf := x.Func(pkg, fn)
+			got := ""
+			if vf != nil && vf.Body != nil {
+				for _, st := range vf.Body.List {
+					ifs, ok := st.(*ast.IfStmt)
+					if !ok || ifs.Else != nil || ifs.Init != nil || len(ifs.Body.List) != 1 {
+						continue
+					}
+					be, ok := ifs.Cond.(*ast.BinaryExpr)
+					if !ok || be.Op != token.LEQ || !histIsIdent(be.X, "limit") {
+						continue
+					}
+					if z, ok := be.Y.(*ast.BasicLit); !ok || z.Value != "0" {
+						continue
+					}
+					as, ok := ifs.Body.List[0].(*ast.AssignStmt)
+					if !ok || as.Tok != token.ASSIGN || len(as.Lhs) != 1 || len(as.Rhs) != 1 || !histIsIdent(as.Lhs[0], "limit") {
+						continue
+					}
+					if lit, ok := as.Rhs[0].(*ast.BasicLit); ok && lit.Kind == token.INT {
+						got = lit.Value
+					}
+				}
+			}
+			if got == "" || got == "0" || (viewDefault != "" && viewDefault != got) {
+				viewOK = false
+			}
+			viewDefault = got
+		}
+		x.Assert("history:view-default", viewOK, "expected `if limit <= 0 { limit = N }` with one positive literal N in GetRecentQueries and GetTopQueries (got %q)", viewDefault)
+
+		if newDefault == "" || !viewOK {
 			return
 		}
 		var sb strings.Builder
 		sb.WriteString("namespace Wtf.Gen.History\n\n")
+		fmt.Fprintf(&sb, "/-- GetRecentQueries / GetTopQueries: rows returned for a non-positive limit -/\ndef viewDefault : Nat := %s\n\n", viewDefault)
 		fmt.Fprintf(&sb, "/-- NewSearchHistory: value substituted for a non-positive requested maximum -/\ndef newDefault : Int := %s\n\n", newDefault)
 		fmt.Fprintf(&sb, "/-- Load takes over the file's max_size only under `if loaded.MaxSize > 0` -/\ndef loadGuard : Bool := %v\n\n", guard)
 		fmt.Fprintf(&sb, "/-- Load's final `if sh.MaxSize <= 0 { sh.MaxSize = N }` (none when absent) -/\ndef loadFallback : Option Int := %s\n\n", fallbackLean)
